@@ -23,3 +23,63 @@ Theorem C03_progress : forall s a st cur v nn st',
   dec_value s a st cur = Ok (v, nn, st') -> (length (rest st') + 5 <= length (rest st))%nat.
 Proof. exact (proj1 dec_value_progress). Qed.
 Print Assumptions C03_progress.
+
+(* ---------------------------------------------------------------------------------------------
+   Delivery independence.  Readers.v is the decoder once more, reading through models of the Go
+   reader objects it really uses - the transport handing out the data in an arbitrary scripted
+   sequence of read sizes (empty reads, data together with the terminal error), bufio.Reader,
+   io.LimitedReader, io.ReadFull, io.CopyN.  For EVERY script: *)
+From Coq Require Import Lia.
+Require Import Readers ReadersProofs.
+Open Scope N_scope.
+
+Definition transport (data : bytes) (sizes : list N) (weof : bool) (term : ioerr) : base :=
+  {| b_data := data; b_sizes := sizes; b_weof := weof; b_term := term |}.
+
+(* a transport that ends with io.EOF: Decode returns exactly what it returns on the bytes in memory -
+   the same value, the same error class - whatever the fragmentation, through a buffered source
+   (scanner = false: NewDecoder wraps it in a bufio.Reader) or an io.ByteScanner (scanner = true) *)
+Theorem C03_delivery_independent : forall ty tag fl data sizes weof scanner x s',
+  stall_free sizes ->          (* fewer than 100 consecutive empty reads: bufio's io.ErrNoProgress rule *)
+  c_dec_top ty tag fl (new_decoder scanner (transport data sizes weof EOF)) = (x, s') ->
+  x = strip (dec_top ty tag fl {| rest := data; last := 0 |}).
+Proof.
+  intros ty tag fl data sizes weof scanner x s' Hsf H.
+  destruct (new_decoder_wf scanner (transport data sizes weof EOF) Hsf) as [Hw Hfl].
+  destruct (decode_on_readers _ _ _ _ _ _ Hw H) as [_ F _ _]. rewrite Hfl in F. apply F.
+  destruct scanner; reflexivity.
+Qed.
+Print Assumptions C03_delivery_independent.
+
+(* the same for a caller-supplied bufio.Reader of any buffer size *)
+Theorem C03_delivery_independent_bufio : forall ty tag fl data sizes weof size x s',
+  0 < size -> stall_free sizes ->
+  c_dec_top ty tag fl (new_decoder_bufio size (transport data sizes weof EOF)) = (x, s') ->
+  x = strip (dec_top ty tag fl {| rest := data; last := 0 |}).
+Proof.
+  intros ty tag fl data sizes weof size x s' Hs Hsf H.
+  destruct (new_decoder_bufio_wf size (transport data sizes weof EOF) Hs Hsf) as [Hw Hfl].
+  destruct (decode_on_readers _ _ _ _ _ _ Hw H) as [_ F _ _]. rewrite Hfl in F. apply F. reflexivity.
+Qed.
+Print Assumptions C03_delivery_independent_bufio.
+
+(* a transport that ends in an I/O error at any offset: Decode still terminates (no loop runs out of
+   fuel, bufio never gives up), and it returns nil only if the bytes that did arrive decode to that
+   very value in memory - an I/O error is never turned into a success or into another value *)
+Theorem C03_io_error_safe : forall ty tag fl data sizes weof scanner x s',
+  stall_free sizes ->
+  c_dec_top ty tag fl (new_decoder scanner (transport data sizes weof IOE)) = (x, s') ->
+  x <> OutOfFuel /\
+  (forall v n, x = Ok (v, n) -> exists st', dec_top ty tag fl {| rest := data; last := 0 |} = Ok (v, n, st')).
+Proof.
+  intros ty tag fl data sizes weof scanner x s' Hsf H.
+  destruct (new_decoder_wf scanner (transport data sizes weof IOE) Hsf) as [Hw Hfl].
+  destruct (decode_on_readers _ _ _ _ _ _ Hw H) as [O _ U _]. rewrite Hfl in O, U. split.
+  - intros E. apply (dec_top_total _ _ _ _ (U E)).
+  - intros v n E. destruct (O _ E) as (st' & Ef & _). exists st'. exact Ef.
+Qed.
+Print Assumptions C03_io_error_safe.
+
+(* the statement has instances: a 300-byte script with empty reads and data delivered with EOF *)
+Example C03_script_example : stall_free [3; 0; 0; 5; 1; 0; 7; 100] /\ stall_free (repeat 1 300).
+Proof. split; vm_compute; repeat split; lia. Qed.
